@@ -380,6 +380,7 @@ def check(ctx):
         "timeouts_first_try": agg["timeouts"] + agg2["timeouts"], "corpus_files": nfiles,
         "profiles": [n for n, _ in allprof],
     }
+    cov.update(bee.vacuity(agg))
     return {"level": LEVEL, "coverage": cov,
             "assumptions": ["clang ASan+UBSan report every memory-safety / undefined-behaviour fault they instrument",
                             "a run that needs more than 60 s for an input of a few hundred bytes is a hang"]}
